@@ -118,7 +118,7 @@ def statement(rng, m=None):
 DIRECTIVES = [".asciz \"a\\u03bbb\\n\" ", ".ascii \"\\u0041\\u00e9\"", ".string \"t\\tq\\\"x\"",
               ".text", ".data", ".word 1, 2, 3", ".byte 1 2", ".half 0x10", ".asciz \"hi\"", ".ascii \"a b\"",
               ".string \"x\\n\"", ".align 2", ".space 16", ".globl main", ".global f", ".eqv X 5", ".section .text",
-              ".extern foo", ".float 1", ".double 2", ".dword 3", ".macro foo", ".endmacro", ".include \"inc.s\"",
+              ".extern foo", ".float 1", ".double 2", ".dword 3", ".macro foo", ".endmacro", ".end_macro", ".include \"inc.s\"",
               ".word", ".word 1\n 2\n 3", ".bogus 1", ".Text", ".DATA", ".asciz 5", ".align x"]
 
 
